@@ -6,7 +6,7 @@ From Coq Require Import List NArith ZArith Bool.
 Import ListNotations.
 Require Import Verif.Lib.Wire Verif.Gen.Facts_C10 Verif.Model.C10 Verif.Proofs.C10 Verif.Proofs.C10_sat
         Verif.Proofs.C10_on Verif.Proofs.C10_codec Verif.Proofs.C10_real
-        Verif.Proofs.C10_gen Verif.Proofs.C10_gen2 Verif.Proofs.C10_altered Verif.Proofs.C10_factory.
+        Verif.Proofs.C10_gen Verif.Proofs.C10_gen2 Verif.Proofs.C10_altered Verif.Proofs.C10_factory Verif.Proofs.C10_compose.
 
 (* constants read from session.py: the three comparisons are `>`, the limit is 4064, the payload
    is (accessed, created, state), each wrapped dict method wraps the dict method of its own name *)
@@ -429,3 +429,44 @@ Print Assumptions C10_factory_call_attrs.
 Theorem C10_router_invokes_callbacks : forall O o s exc n, gfinish_r O o s exc n = finish O o s exc.
 Proof. exact gfinish_r_is_model. Qed.
 Print Assumptions C10_router_invokes_callbacks.
+
+(* ================================================================== proof-only round (Proofs/C10_compose.v) *)
+(* whatever the nesting of canonical wrappers, the serializer object is the signed serializer under its key behind
+   ONE canonical check iff there is at least one wrapper; wrapping twice is wrapping once *)
+Theorem C10_ser_loads_any_nesting : forall O d c,
+  ser_loads O d c = if ser_canonical d then canon_loads O (signed_loads O (ser_key d)) c
+                    else signed_loads O (ser_key d) c.
+Proof. exact ser_loads_any_nesting. Qed.
+Print Assumptions C10_ser_loads_any_nesting.
+
+Theorem C10_canonical_wrapper_idempotent : forall O d c,
+  ser_loads O (SCanon (SCanon d)) c = ser_loads O (SCanon d) c.
+Proof. exact ser_loads_wrap_idem. Qed.
+Print Assumptions C10_canonical_wrapper_idempotent.
+
+Theorem C10_ser_dumps_any_nesting : forall O d p, ser_dumps O d p = signed_dumps O (ser_key d) p.
+Proof. exact ser_dumps_any_nesting. Qed.
+Print Assumptions C10_ser_dumps_any_nesting.
+
+(* THE property over histories, premise: unforgeability only (the hypothesis canonical_check = true of
+   C10_chain_refines_spec_canonical is discharged by C10_canonical_check_on) *)
+Theorem C10_chain_refines_spec_unforged : forall O o, rt_b64 O -> rt_ser O -> mac_len O ->
+  forall l last sv, unforged O o l -> inv O o last sv ->
+  Forall2 ok_at (run_chain O o last l) (spec_chain O o sv true l).
+Proof. exact chain_refines_spec_unforged. Qed.
+Print Assumptions C10_chain_refines_spec_unforged.
+
+(* end to end from a CALL of SignedCookieSessionFactory (positional / keyword / omitted arguments) through the
+   regenerated request.session, callback queue and router pipeline (grun_req) to the store semantics of histories
+   (Examples ex_call_builds, ex_unforged_any: the premises are satisfiable) *)
+Theorem C10_call_end_to_end : forall O c o, rt_b64 O -> rt_ser O -> mac_len O -> wf_call c ->
+  gfactory_call c = FacOk o ->
+  spec_factory_call c = FacOk o /\
+  (exists vals a, doc_bind c = Some vals /\ fargs_of vals = Some a /\
+                  key o = salted_key (fa_salt a) (fa_secret a) /\
+                  (forall t, ser_loads O (b_ser (gen_signed_factory a)) t = loads O (key o) t) /\
+                  (forall p, ser_dumps O (b_ser (gen_signed_factory a)) p = signed_dumps O (key o) p)) /\
+  (forall last r, grun_req O o last r = run_req O o last r) /\
+  forall l, unforged O o l -> Forall2 ok_at (grun_chain O o None l) (spec_chain O o None true l).
+Proof. exact call_end_to_end. Qed.
+Print Assumptions C10_call_end_to_end.
